@@ -225,6 +225,10 @@ impl Mempool {
             current_timestamp
         );
 
+        // Block::create empties the pool before it knows whether a block comes out of it: what the pool
+        // held is put back if none does
+        let pooled_transactions = self.transactions.clone();
+
         let staking_tx;
         {
             let mut wallet = self.wallet_lock.write().await;
@@ -241,7 +245,7 @@ impl Mempool {
         self.add_transaction_if_validates(staking_tx, blockchain)
             .await;
 
-        let mut block = Block::create(
+        let mut block = match Block::create(
             &mut self.transactions,
             previous_block_hash,
             blockchain,
@@ -253,8 +257,19 @@ impl Mempool {
             storage,
         )
         .await
-        .ok()?;
-        block.generate().ok()?;
+        {
+            Ok(block) => block,
+            Err(error) => {
+                warn!("no block could be bundled : {:?}", error);
+                self.restore_pool(pooled_transactions);
+                return None;
+            }
+        };
+        if let Err(error) = block.generate() {
+            warn!("the bundled block could not be generated : {:?}", error);
+            self.restore_pool(pooled_transactions);
+            return None;
+        }
         debug!(
             "block generated with work : {:?} and burnfee : {:?} gts : {:?}",
             block.total_work,
@@ -277,6 +292,13 @@ impl Mempool {
         }
 
         Some(block)
+    }
+
+    /// puts back what the pool held before a bundling attempt that produced no block
+    fn restore_pool(&mut self, transactions: AHashMap<SaitoSignature, Transaction>) {
+        self.transactions = transactions;
+        // (rebuilds the input reservations and the cached work from what is pooled)
+        self.delete_transactions(&vec![]);
     }
 
     pub async fn bundle_genesis_block(
